@@ -244,6 +244,14 @@ theorem C17_lexable_is_valid (e : Expr) (h : LexDoc.LE e) : validE e = true := L
 theorem C17_grammatical_decoder_free (d : Dec) (ts : List Token) (rs : List Rule) (h : parseDoc d ts = (rs, none)) :
     (parseDoc anyDec ts).2 = none := ParseSim.parseDoc_any d ts rs h
 
+/-- any layout of whitespace and comments between the canonical tokens gives the same tokens and the same rules -/
+theorem C17_layout (rules : List Rule) (h : ∀ r ∈ rules, ParseDoc.WFRule RealLiterals.Covered r ∧ LexDoc.LRule r)
+    (seps : List (List Char)) (hlen : seps.length = (ParseDoc.fDoc RealLiterals.canonTok LexDoc.canonOt LexDoc.canonDT rules).length)
+    (hs : ∀ sep ∈ seps, LexRender.GoodSep sep) :
+    parseDoc realDec (lex (LexRender.renderS ((ParseDoc.fDoc RealLiterals.canonTok LexDoc.canonOt LexDoc.canonDT rules).zip seps))).toks
+      = (rules, none) :=
+  (LexDoc.lex_parse_layout rules h seps hlen hs).2
+
 /-- the lexer on any space-separated rendering of tokens that lex -/
 theorem C17_lex_render (ts : List Token) (h : ∀ t ∈ ts, LexRender.Lexes t) : lex (LexRender.render ts) = { toks := ts, errs := 0 } :=
   LexRender.lex_render ts h
@@ -293,6 +301,7 @@ theorem C17_leading_whitespace (ws cs : List Char) (h : ∀ c ∈ ws, isWs c = t
 #print axioms C17_grammatical_decoder_free
 #print axioms C17_lexable_is_valid
 #print axioms C17_lex_render
+#print axioms C17_layout
 #print axioms Grule.LexDoc.sample_roundtrip
 #print axioms Grule.LexFixed.lexes_tk
 #print axioms C17_accepted_rules_wellformed
